@@ -8,6 +8,7 @@ CONSTANTS
   MaxInjects = 0
   MaxExpires = 0
   MaxLosses = 0
+  MaxLinkChanges = 0
   AsBuilt = FALSE
 VIEW DesignView
 INVARIANTS RecordedPathsOK InFlightPathsOK RelaySkipOK BoundedMessages
